@@ -35,6 +35,8 @@ func init() {
 		ex.setBool("hostIsTrimmedUrlHost", ok, fd != nil, "NewUpstream: addrUrlHost := tryTrimIpv6Brackets(addrURL.Host), exactly once")
 		c18BootFacts(ex, fd)
 		c18DohFacts(ex, fd)
+		c18SocksFacts(ex, fd)
+		c18FwdFacts(ex)
 	})
 }
 
@@ -344,4 +346,129 @@ func c18BootFacts(ex *factExtractor, newUpstream *ast.FuncDecl) {
 	} else {
 		ex.setBool("c18BootCallsPassTarget", false, false, noteCall)
 	}
+}
+
+// The SOCKS5 path of newTcpDialer: the proxy is handed parseDialAddr's host and
+// port as text, before (and instead of) the ip / bootstrap decision tree.
+func c18SocksFacts(ex *factExtractor, newUpstream *ast.FuncDecl) {
+	const note = "NewUpstream, newTcpDialer: right after host, port, err := parseDialAddr(..) and its error check comes `if s5Addr := opt.Socks5; len(s5Addr) > 0 {`, whose body ends by returning a function that calls contextDialer.DialContext(ctx, \"tcp\", dialAddr) with dialAddr := net.JoinHostPort(host, strconv.Itoa(int(port))); no other proxy dialer exists in NewUpstream (the name goes to the proxy as written, a configured bootstrap server is not consulted)"
+	if newUpstream == nil {
+		ex.setBool("c18Socks5ConnectsToTarget", false, false, note)
+		return
+	}
+	var lit *ast.FuncLit
+	for _, s := range newUpstream.Body.List {
+		if as, ok := s.(*ast.AssignStmt); ok && len(as.Lhs) == 1 && len(as.Rhs) == 1 && ex.str(as.Lhs[0]) == "newTcpDialer" {
+			lit, _ = as.Rhs[0].(*ast.FuncLit)
+		}
+	}
+	ok := false
+	if lit != nil && len(lit.Body.List) >= 3 && ex.str(lit.Body.List[0]) == "host, port, err := parseDialAddr(addrUrlHost, opt.DialAddr, defaultPort)" {
+		if is, isIf := lit.Body.List[2].(*ast.IfStmt); isIf && is.Init != nil && is.Else == nil &&
+			ex.str(is.Init) == "s5Addr := opt.Socks5" && ex.str(is.Cond) == "len(s5Addr) > 0" && len(is.Body.List) > 0 {
+			var top []string
+			for _, s := range is.Body.List {
+				top = append(top, ex.str(s))
+			}
+			retOK := false
+			if rs, isRet := is.Body.List[len(is.Body.List)-1].(*ast.ReturnStmt); isRet && len(rs.Results) == 2 && ex.str(rs.Results[1]) == "nil" {
+				if fl, isFl := rs.Results[0].(*ast.FuncLit); isFl && len(fl.Body.List) == 1 &&
+					ex.str(fl.Body.List[0]) == `return contextDialer.DialContext(ctx, "tcp", dialAddr)` {
+					retOK = true
+				}
+			}
+			ok = retOK && contains(top, `socks5Dialer, err := proxy.SOCKS5("tcp", s5Addr, nil, dialer)`) &&
+				contains(top, "contextDialer := socks5Dialer.(proxy.ContextDialer)") &&
+				contains(top, "dialAddr := net.JoinHostPort(host, strconv.Itoa(int(port)))") &&
+				c18Assigns(ex, is.Body, "dialAddr") == 1 && c18Assigns(ex, is.Body, "contextDialer") == 1 &&
+				c18Assigns(ex, lit.Body, "host") == 1 && c18Assigns(ex, lit.Body, "port") == 1
+		}
+	}
+	nProxy := 0
+	for _, c := range ex.calls(newUpstream.Body) {
+		if strings.HasPrefix(c, "proxy.") {
+			nProxy++
+		}
+	}
+	ex.setBool("c18Socks5ConnectsToTarget", ok && nProxy == 1, true, note)
+}
+
+// The forward plugin: every configured entry gets an upstream of its own,
+// created from that entry's addr and dial_addr.
+func c18FwdFacts(ex *factExtractor) {
+	const rel = "plugin/executable/forward/forward.go"
+	const note = "forward.NewForward: the one loop `for i, c := range args.Upstreams` has, as direct statements of its body, u, err := upstream.NewUpstream(c.Addr, uOpt) (the only NewUpstream call and the only assignment to u), uw.u = u and f.us = append(f.us, uw); uOpt is a literal with DialAddr: c.DialAddr, Socks5: c.Socks5, Bootstrap: c.Bootstrap, BootstrapVer: c.BootstrapVer; c.Addr / c.DialAddr are never written; f.us and .u are written nowhere else in the file"
+	fd, ff := ex.fn(rel, "", "NewForward"), ex.file(rel)
+	if fd == nil || ff == nil {
+		ex.setBool("c18FwdUpstreamPerEntry", false, false, note)
+		return
+	}
+	var loops []*ast.RangeStmt
+	ast.Inspect(fd.Body, func(x ast.Node) bool {
+		if rs, ok := x.(*ast.RangeStmt); ok && ex.str(rs.X) == "args.Upstreams" {
+			loops = append(loops, rs)
+		}
+		return true
+	})
+	ok := false
+	if len(loops) == 1 && loops[0].Key != nil && loops[0].Value != nil && ex.str(loops[0].Value) == "c" {
+		body := loops[0].Body
+		var top []string
+		for _, s := range body.List {
+			top = append(top, ex.str(s))
+		}
+		nNew := 0
+		for _, c := range ex.calls(fd.Body) {
+			if c == "upstream.NewUpstream" {
+				nNew++
+			}
+		}
+		want := map[string]string{"DialAddr": "c.DialAddr", "Socks5": "c.Socks5", "Bootstrap": "c.Bootstrap", "BootstrapVer": "c.BootstrapVer", "EnablePipeline": "c.EnablePipeline", "EnableHTTP3": "c.EnableHTTP3"}
+		got := 0
+		for _, s := range body.List {
+			as, isAs := s.(*ast.AssignStmt)
+			if !isAs || len(as.Lhs) != 1 || ex.str(as.Lhs[0]) != "uOpt" || len(as.Rhs) != 1 {
+				continue
+			}
+			if cl, isCl := as.Rhs[0].(*ast.CompositeLit); isCl && ex.str(cl.Type) == "upstream.Opt" {
+				for _, e := range cl.Elts {
+					if kv, isKV := e.(*ast.KeyValueExpr); isKV && want[ex.str(kv.Key)] != "" && want[ex.str(kv.Key)] == ex.str(kv.Value) {
+						got++
+					}
+				}
+			}
+		}
+		cWrites := 0
+		ast.Inspect(fd.Body, func(x ast.Node) bool {
+			if as, isAs := x.(*ast.AssignStmt); isAs {
+				for _, l := range as.Lhs {
+					if s := ex.str(l); s == "c.Addr" || s == "c.DialAddr" || s == "uOpt.DialAddr" || s == "uOpt" && as.Tok == token.ASSIGN {
+						cWrites++
+					}
+				}
+			}
+			return true
+		})
+		ok = contains(top, "u, err := upstream.NewUpstream(c.Addr, uOpt)") && nNew == 1 && c18Assigns(ex, fd.Body, "u") == 1 &&
+			contains(top, "uw.u = u") && contains(top, "f.us = append(f.us, uw)") && contains(top, "uw := newWrapper(i, c, opt.MetricsTag)") &&
+			c18Assigns(ex, fd.Body, "uw") == 1 && c18Assigns(ex, fd.Body, "uOpt") == 1 && c18Assigns(ex, fd.Body, "c") == 1 &&
+			got == len(want) && cWrites == 0 && c18FwdSelWrites(ex, ff, "us") == 1 && c18FwdSelWrites(ex, ff, "u") == 1
+	}
+	ex.setBool("c18FwdUpstreamPerEntry", ok, true, note)
+}
+
+// c18FwdSelWrites counts, inside node, the assignments to a selector `<x>.field`.
+func c18FwdSelWrites(ex *factExtractor, node ast.Node, field string) int {
+	n := 0
+	ast.Inspect(node, func(x ast.Node) bool {
+		if s, ok := x.(*ast.AssignStmt); ok {
+			for _, l := range s.Lhs {
+				if sel, ok := l.(*ast.SelectorExpr); ok && sel.Sel.Name == field {
+					n++
+				}
+			}
+		}
+		return true
+	})
+	return n
 }
